@@ -158,8 +158,8 @@ Proof.
   { intros i Hi. destruct (Nat.eq_dec i (Z.to_nat j)) as [->|Hne].
     - rewrite nth_error_set_nth_same by (unfold len in Hlp; lia). symmetry. exact Nx.
     - rewrite nth_error_set_nth_other by (apply Hother; lia). apply Hp. lia. }
-  destruct wts as [w|] eqn:Ew.
-  - destruct Hwp as [Hlw Hwv]. destruct (Hw w eq_refl) as [Hwl _].
+  unfold Inv3. pose proof Hw as Hw'. revert Hwp Hw'. generalize wts as o. intros o Hwp Hw'. destruct o as [w|].
+  - destruct Hwp as [Hlw Hwv]. destruct (Hw' w eq_refl) as [Hwl _].
     destruct (get_nth_error w j ltac:(lia)) as [wi [Ewi Nwi]]. rewrite Ewi. cbn [bind].
     rewrite set_ok by lia. cbn [bind]. rewrite Nat2Z.id. rewrite E. cbn [bind].
     eexists. split; [reflexivity|]. split; [exact Hc'|]. split; [unfold len; rewrite set_nth_length; exact Hlp|].
@@ -186,7 +186,8 @@ Proof.
       * apply tabulate2_shaped; lia.
       * intros t k Ht Hk. apply tabulate2_cell; assumption.
     + intros i Hi. cbn in Hi. lia.
-    + destruct wts as [w|]; [|reflexivity]. destruct (Hw w eq_refl) as [_ Hl0]. split; [exact Hl0|].
+    + pose proof Hw as Hw'. revert Hw'. generalize wts as o. intros o Hw'. destruct o as [w|]; [|reflexivity].
+      destruct (Hw' w eq_refl) as [_ Hl0]. split; [exact Hl0|].
       intros i Hi. cbn in Hi. lia.
   - intros t j st Ht Hj Hi. apply scatter_step_ok; assumption.
   - destruct Hinv as [_ [Hlp [Hp Hwp]]].
@@ -195,7 +196,8 @@ Proof.
     exists ptrs', psort, wsort. split; [exact E|]. split.
     + apply (scattered_is_sorted np fk pos psort); [lia|exact HposN|unfold len in Hlp; lia|exact fk_range|].
       intros i Hi. apply Hp. lia.
-    + destruct wts as [w|]; [|exact Hwp]. destruct Hwp as [Hlw Hwv]. destruct (Hw w eq_refl) as [Hwl _].
+    + pose proof Hw as Hw'. revert Hwp Hw'. generalize wts as o. intros o Hwp Hw'. destruct o as [w|]; [|exact Hwp].
+      destruct Hwp as [Hlw Hwv]. destruct (Hw' w eq_refl) as [Hwl _].
       apply (scattered_is_sorted np fk w wsort); [lia|unfold len in Hwl; lia|unfold len in Hlw; lia|exact fk_range|].
       intros i Hi. apply Hwv. lia.
 Qed.
@@ -210,14 +212,15 @@ Proof.
   unfold partition_model.
   destruct pass1_ok as [counts [E1 [Hs Hc]]]. rewrite E1. cbn [bind].
   rewrite (pointers_of_counts T tstart N HT Hb np fk Hnp fk_len fk_range counts Hs Hc). cbn [bind].
-  rewrite (get_ok_nth _ 0 []) by (destruct (tabulate2_shaped T np (ptr0 tstart fk)) as [Hl _]; lia).
-  cbn [bind]. change (Z.to_nat 0) with (Z.to_nat 0). rewrite (tabulate2_row T np (ptr0 tstart fk) 0) by lia.
+  destruct (tabulate2_shaped T np (ptr0 tstart fk) ltac:(lia) ltac:(lia)) as [Hlt _].
+  rewrite (get_ok_nth _ 0 []) by lia.
+  cbn [bind]. rewrite (tabulate2_row T np (ptr0 tstart fk) 0) by lia.
   destruct pass2_ok as [ptrs' [psort [wsort [E2 [Hp Hwv]]]]]. rewrite E2. cbn [bind].
   f_equal. f_equal; [f_equal|].
   - exact Hp.
   - unfold raw_starts. f_equal. apply map_ext_in. intros k Hk. unfold ptr0.
     rewrite (ts_0 T tstart N Hb). cbn [Z.to_nat firstn]. rewrite ncnt_nil. lia.
-  - destruct wts as [w|]; cbn [option_map]; [f_equal; exact Hwv|reflexivity].
+  - revert Hwv. generalize wts as o. intros o Hwv. destruct o as [w|]; cbn [option_map]; [f_equal; exact Hwv|reflexivity].
 Qed.
 
 End Main.
@@ -235,7 +238,7 @@ Qed.
 Lemma sort_by_keys_spec {P} (keyf : P -> Z) np pos :
   sort_by_keys np (map keyf pos) pos = stable_counting_sort keyf np pos.
 Proof.
-  unfold sort_by_keys, stable_counting_sort. rewrite upto_zrange. apply flat_map_ext_in'. intros k _. apply select_stripe.
+  unfold sort_by_keys, stable_counting_sort. change (upto np) with (zrange np). apply flat_map_ext_in'. intros k _. apply select_stripe.
 Qed.
 
 Lemma select_weights {P W} (keyf : P -> Z) k pos : forall (w : list W), length w = length pos ->
@@ -254,7 +257,7 @@ Proof. induction l as [|a l IH]; [reflexivity|]. cbn [flat_map]. rewrite map_app
 Lemma sort_by_keys_weights {P W} (keyf : P -> Z) np pos (w : list W) : length w = length pos ->
   sort_by_keys np (map keyf pos) w = map snd (stable_counting_sort (fun pw => keyf (fst pw)) np (combine pos w)).
 Proof.
-  intros Hl. unfold sort_by_keys, stable_counting_sort. rewrite upto_zrange, map_flat_map.
+  intros Hl. unfold sort_by_keys, stable_counting_sort. change (upto np) with (zrange np). rewrite map_flat_map.
   apply flat_map_ext_in'. intros k _. apply select_weights. exact Hl.
 Qed.
 
@@ -268,7 +271,7 @@ Lemma raw_starts_spec {P} (keyf : P -> Z) np pos :
   0 <= np -> (forall x, In x pos -> 0 <= keyf x < np) ->
   raw_starts P keyf np pos = starts_spec keyf np pos.
 Proof.
-  intros Hnp Hk. unfold raw_starts, starts_spec. rewrite upto_zrange.
+  intros Hnp Hk. unfold raw_starts, starts_spec. change (upto (np + 1)) with (zrange (np + 1)).
   replace (np + 1) with (Z.of_nat (S (Z.to_nat np))) by lia. rewrite zrange_S, map_app. rewrite Z2Nat.id by lia.
   f_equal.
   - apply map_ext. intros k. apply nlt_count_below.
